@@ -450,6 +450,10 @@ def run_check(prop, modname, jobs, tier, seed, level='model_checking', functions
                 r = _TIMEOUT_SERVER[0].call(modname, 'replay', json.loads(json.dumps(v, default=str)),
                                             cpu_s=60, mem_mb=4096, wall_s=1800)
                 if r['status'] == 'cpu':
+                    # must be repeatable (a forked child can also be lost to the machine)
+                    r = _TIMEOUT_SERVER[0].call(modname, 'replay', json.loads(json.dumps(v, default=str)),
+                                                cpu_s=60, mem_mb=4096, wall_s=1800)
+                if r['status'] == 'cpu':
                     v['replay_detail'] = 'the public API call on %s did not finish within 60 s CPU' % (
                         json.dumps(v['witness'].get('inputs'), default=str)[:300],)
                     confirmed.append(v)
